@@ -745,17 +745,6 @@ func runProgram(co *cobj, p *program, stamped bool, r *rand.Rand) (log []Ev, pan
 		}
 		return func() Ev { return co.Call(op) }
 	}
-	// waiting at a barrier: with a processor for every goroutine of the history the wait is a
-	// pure spin (a goroutine that yields is not running when the barrier opens and comes back
-	// microseconds later, which is longer than the whole history); it starts yielding only after
-	// a long time.  With fewer processors the others can only arrive if this one yields.
-	procs := runtime.GOMAXPROCS(0)
-	pause := func(spins int) bool {
-		if procs > int(nth) {
-			return spins > 1<<14 && spins%256 == 255
-		}
-		return spins%64 == 63
-	}
 	runList := func(slot, th int, ops []pop, dl []int) (ok bool) {
 		calls := make([]func() Ev, len(ops))
 		for i, op := range ops {
@@ -767,7 +756,7 @@ func runProgram(co *cobj, p *program, stamped bool, r *rand.Rand) (log []Ev, pan
 			<-start
 			atomic.AddInt32(&arrived, 1)
 			for spins := 0; atomic.LoadInt32(&arrived) < nth && spins < 1<<22; spins++ {
-				if pause(spins) {
+				if spins%1024 == 1023 {
 					runtime.Gosched()
 				}
 			}
@@ -792,7 +781,7 @@ func runProgram(co *cobj, p *program, stamped bool, r *rand.Rand) (log []Ev, pan
 			if round != nil && dl != nil {
 				atomic.AddInt32(&round[i], 1)
 				for spins := 0; atomic.LoadInt32(&round[i]) < need[i] && spins < 1<<16; spins++ {
-					if pause(spins) {
+					if spins%256 == 255 {
 						runtime.Gosched()
 					}
 				}
